@@ -367,6 +367,19 @@ func (s *Sim) Drain() []string {
 	return alive
 }
 
+// ParkedSites returns how many tasks are currently parked at each hook site.
+func (s *Sim) ParkedSites() map[string]int {
+	s.mu.Lock()
+	defer s.mu.Unlock()
+	m := map[string]int{}
+	for _, t := range s.tasks {
+		if t.parked {
+			m[t.at]++
+		}
+	}
+	return m
+}
+
 // Step returns the number of scheduling decisions made so far.
 func (s *Sim) Step() int {
 	s.mu.Lock()
